@@ -52,8 +52,22 @@ def expected_checks(name, path):
     return [m.group(1)] if m else []
 
 
+def neutralised(path):
+    """reason, if a later repair of /repo made this seeded change harmless
+    (its demonstration passes on the patched tree) or removed the code it
+    changed"""
+    meta = os.path.join(os.path.dirname(path), 'meta.json')
+    if os.path.exists(meta):
+        return json.load(open(meta)).get('neutralised_by')
+    return None
+
+
 def run_one(name, path, tier, baseline, shards):
     t0 = time.time()
+    why = neutralised(path)
+    if why:
+        return {'mutant': name, 'checks': {}, 'applied': False,
+                'neutralised_by': why}
     scratch = tempfile.mkdtemp(prefix='chi_mut_', dir='/tmp')
     os.rmdir(scratch)
     res = {'mutant': name, 'checks': {}, 'applied': False}
@@ -125,9 +139,14 @@ def main():
              '|---|---|---|---|---|']
     missed = 0
     for r in allr:
+        if r.get('neutralised_by'):
+            lines.append('| %s | - | - | neutralised | by fix %s |' % (
+                r['mutant'], r['neutralised_by'][:120].replace('|', '/')))
+            continue
         if not r.get('applied'):
             lines.append('| %s | - | - | PATCH FAILED | %s |' % (
                 r['mutant'], r.get('error', '')[:80]))
+            missed += 1
             continue
         for chk, c in r['checks'].items():
             w = (c['witness'][1].strip() if len(c['witness']) > 1 else
